@@ -55,6 +55,11 @@ def worker(job):
     if kw == "none":
         # the declared form written in an IMPORTED file (the grammar options, ignore_case among them, hold for every file of the grammar)
         forms["imported"] = ('import "lib.pg";\nS: lib.X;\n', 'X: T_ A;\nA: "!!";\nterminals\nT_: "%s";\n' % esc(t))
+    twin = t.swapcase()
+    if not ic and twin != t and all(c.isalnum() or c == "_" for c in t) and t not in ("S", "X", "A", "s", "x", "a"):
+        # the text next to the text that differs from it in case only: two different terminals of a case-sensitive grammar
+        # (round-5 seeded change C19-h: the "match the same string" check compared case-folded texts whatever ignore_case says)
+        forms["twin"] = 'S: X;\nX: "%s" A | "%s" A;\nA: "!!";\n' % (esc(t), esc(twin)) + (("terminals\n" + kwdecl) if kwdecl else "")
     for form, text in forms.items():
         rec = {"built": False, "err": "", "match": [[0] * (len(s) + 1) for s in ins], "sentence": False, "iskw": False}
         try:
@@ -74,6 +79,8 @@ def worker(job):
                     term = g.terminals["lib.T_"]
                 elif form == "declared":
                     term = g.terminals["T_"]
+                elif form == "twin":
+                    term = g.terminals[t]
                 else:
                     cands = [x for n, x in g.terminals.items() if n not in ("EMPTY", "STOP", "KEYWORD", "!!")]
                     if len(cands) != 1:
@@ -96,6 +103,9 @@ def worker(job):
     if "imported" not in case:
         case["imported"] = {"built": False, "err": "", "match": [], "sentence": False, "iskw": False}
     case["hasimported"] = "imported" in forms
+    if "twin" not in case:
+        case["twin"] = {"built": False, "err": "", "match": [], "sentence": False, "iskw": False}
+    case["hastwin"] = "twin" in forms
     return [case]
 
 
